@@ -9,6 +9,12 @@
 // revision argument form {none, <commit>, A..B} x {default, --objects,
 // --pointers} x {--dry-run, not}, some plans with lfs.fetchexclude set.
 //
+// Coordinates that get their own trigger (candidate genuine defects, see the report to the lead):
+//   nested-gitattributes-subdir          a path tracked only through a .gitattributes in an ancestor
+//                                        directory that is neither the top level nor its own directory
+//   index-only-quoted-path/fetchexclude  a damaged object referenced only by a staged entry whose path
+//                                        git C-quotes (non-ASCII), matching lfs.fetchexclude
+//
 // Oracle (no git-lfs code): plain git plumbing with filters disabled + ptrspec +
 // git check-attr on a temporary index + git check-ignore + SHA-256 of the files
 // on disk before and after the run. See oracle.go for the documented meaning of
@@ -101,6 +107,9 @@ type repoCase struct {
 	oddB map[string]string // blob -> odd kind
 	mu   sync.Mutex
 	nrun int
+
+	attrCache map[string]string
+	refOids   map[string]bool // oids named by a canonical pointer anywhere in the history or the index
 }
 
 var fxPool = []string{"*.dat", "big.bin", "a/b/*", "a/**", "/f2.bin", "f1.bin", "c d", "é/*", "moved*", "copy[0-2].bin", "a", "staged*", "extra*.bin", "odd*"}
@@ -346,7 +355,22 @@ func (rc *repoCase) runOne(pl *planInfo, form string, mi int, dry bool, runDir s
 	// (1) exit status
 	run.Count("exit_status_judged", 1)
 	if (len(objReq) > 0 || len(ptrReq) > 0) && res.Code == 0 {
-		viol("exit-0-despite-problems", modeTrig, fmt.Sprintf("exit status 0 although the reference model finds problems: %s", ex))
+		trig := modeTrig
+		if len(objReq) == 0 {
+			// if every pointer problem of this run sits at the coordinate "nested-gitattributes-subdir",
+			// the wrong exit status is the same finding seen through the exit status
+			all := true
+			for _, p := range ptrReq {
+				if rc.attrCoordinate(p.Commit, p.Path, "") != "nested-gitattributes-subdir" {
+					all = false
+					break
+				}
+			}
+			if all {
+				trig = "nested-gitattributes-subdir"
+			}
+		}
+		viol("exit-0-despite-problems", trig, fmt.Sprintf("exit status 0 although the reference model finds problems: %s", ex))
 	}
 	// (damaged objects behind fetchexclude'd paths: a report of those is judged below as excluded-object-checked)
 	if !anyAllowed && res.Code != 0 && !(mode.Obj && len(ex.ObjExcluded) > 0) {
@@ -533,6 +557,14 @@ func (rc *repoCase) attrCoordinate(commit, path, dflt string) string {
 	}
 	rc.mu.Lock()
 	defer rc.mu.Unlock()
+	key := commit + "\x00" + path
+	if v, ok := rc.attrCache[key]; ok {
+		if v == "" {
+			return dflt
+		}
+		return v
+	}
+	rc.attrCache[key] = ""
 	tmp := filepath.Join(rc.env.Root, "tmp", "idx-attr-"+commit)
 	defer os.Remove(tmp)
 	envv := []string{"GIT_INDEX_FILE=" + tmp}
@@ -544,6 +576,7 @@ func (rc *repoCase) attrCoordinate(commit, path, dflt string) string {
 	}
 	r := rc.env.Run(sbx.RunOpt{Dir: rc.g.Dir, Env: envv}, "git", "check-attr", "--cached", "filter", "--", path)
 	if r.OK() && !strings.HasSuffix(strings.TrimSpace(string(r.Stdout)), ": filter: lfs") {
+		rc.attrCache[key] = "nested-gitattributes-subdir"
 		return "nested-gitattributes-subdir"
 	}
 	return dflt
@@ -586,7 +619,7 @@ func snapDiff(a, b map[string]sbx.StoreEntry) string {
 func buildRepo(run *evid.Run, idx int) *repoCase {
 	r := rand.New(rand.NewSource(run.Seed*1000003 + int64(idx)))
 	env := sbx.New()
-	rc := &repoCase{run: run, idx: idx, env: env, odd: map[string]string{}, oddB: map[string]string{}}
+	rc := &repoCase{run: run, idx: idx, env: env, odd: map[string]string{}, oddB: map[string]string{}, attrCache: map[string]string{}}
 	rc.g = histgen.New(env, "work", run.Seed*7919+int64(idx), histgen.Options{Commits: 5 + r.Intn(9), Merges: true, Tags: true, TrackToggles: true, Symlinks: true, ExecBits: true, EmptyFiles: true})
 	rc.ex = addExtras(env, rc.g, r, idx)
 	rc.ri = newRepoInfo(env, rc.g.Dir)
@@ -594,12 +627,24 @@ func buildRepo(run *evid.Run, idx int) *repoCase {
 		rc.odd[o.Path] = o.Kind
 		run.Count("odd_blobs_committed_"+o.Kind, 1)
 	}
+	rc.refOids = map[string]bool{}
 	for _, ci := range rc.ri.Commits {
 		for _, e := range ci.Ents {
 			if k, ok := rc.odd[e.Path]; ok {
 				rc.oddB[e.Sha] = k
 			}
+			if bi := rc.ri.Blobs[e.Sha]; bi.Canon != nil {
+				rc.refOids[bi.Canon.Oid] = true
+			}
 		}
+	}
+	for _, e := range rc.ri.Index {
+		if bi := rc.ri.Blobs[e.Sha]; bi.Canon != nil {
+			rc.refOids[bi.Canon.Oid] = true
+		}
+	}
+	if os.Getenv("VERIF_C13_DEBUG") != "" {
+		fmt.Fprintf(os.Stderr, "DEBUG repo %d head=%s commits=%d objects=%d index=%d odd=%d\n", idx, rc.ri.Head, len(rc.ri.All), len(localObjects(rc.g.GitDir)), len(rc.ri.Index), len(rc.ex.Odd))
 	}
 	run.Count("repositories_generated", 1)
 	run.Count("commits_generated", int64(len(rc.ri.All)))
@@ -633,7 +678,7 @@ func (rc *repoCase) makePlan(k int) *planInfo {
 	} else if k == 1 {
 		prob = 0.25
 	}
-	pl.Damage = applyPlan(r, filepath.Join(pl.Dir, ".git"), rc.g.Contents, prob, prefer)
+	pl.Damage = applyPlan(r, filepath.Join(pl.Dir, ".git"), rc.g.Contents, prob, prefer, rc.refOids)
 	for _, d := range pl.Damage {
 		pl.ByOid[d.Oid] = d
 		rc.run.Count("objects_damaged_"+d.Kind, 1)
@@ -662,7 +707,7 @@ func (rc *repoCase) makePlan(k int) *planInfo {
 func main() {
 	run := evid.New("C13", "exploration")
 	defer sbx.RemoveBase()
-	run.Rule = "seeded repositories (histgen: branches, merges incl. octopus, orphan branches, tags, renames/copies/deletes, files moving in and out of LFS tracking, nested .gitattributes, symlinks, exec bits, empty files) extended with commits holding, under tracked patterns, non-canonical pointer text (CRLF, extra/missing final newline, legacy version URL, keys out of order, extra key) and raw content (<1024, 1023, 1024, >1024 bytes, padded pointer) added with the filters disabled, untracked raw / pointer files, and staged-only LFS / raw files; per repository several seeded corruption plans over the local objects {deletion, truncation, extension, bit flip, replacement by another object} incl. the empty plan; per plan `git lfs fsck` on a private copy for revision argument {none, <commit> spelled as sha/branch/tag/relative, A..B incl. empty and non-ancestor ranges} x {default, --objects, --pointers} x {--dry-run, not}, a third of the plans with lfs.fetchexclude. Oracle: plain git plumbing + ptrspec + git check-attr on a temporary index + git check-ignore + SHA-256/inode snapshots of .git/lfs before and after. Class = (argument form, mode, dry-run, fetchexclude, reference outcome)."
+	run.Rule = "seeded repositories (histgen: branches, merges incl. octopus, orphan branches, tags, renames/copies/deletes, files moving in and out of LFS tracking, nested .gitattributes, symlinks, exec bits, empty files) extended with commits holding, under tracked patterns, non-canonical pointer text (CRLF, extra/missing final newline, legacy version URL, keys out of order, extra key) and raw content (<1024, 1023, 1024, >1024 bytes, padded pointer) added with the filters disabled, untracked raw / pointer files, staged-only LFS / raw files, and (a quarter of the repositories) a nested .gitattributes whose basename pattern tracks raw files in its own directory and one level deeper; per repository several seeded corruption plans over the local objects {deletion, truncation, extension, bit flip, replacement by another object} incl. the empty plan; per plan `git lfs fsck` on a private copy for revision argument {none, <commit> spelled as sha/branch/tag/relative, A..B incl. empty and non-ancestor ranges} x {default, --objects, --pointers, --objects --pointers (a third)} x {--dry-run, not}, a third of the plans with lfs.fetchexclude. Oracle: plain git plumbing + ptrspec + git check-attr on a temporary index + git check-ignore + SHA-256/inode snapshots of .git/lfs before and after. Class = (argument form, mode, dry-run, fetchexclude, reference outcome)."
 	run.Assumptions = []string{
 		"git 2.39.5; Git's check-attr --cached on a read-tree'd temporary index is the authority on which paths are LFS-tracked in a commit; git check-ignore is the authority on gitignore(5) matching of lfs.fetchexclude",
 		"A..B for objects: an object MUST be named only if a canonical pointer to it occurs in a tree of a commit of `git rev-list A..B` and that blob occurs in no tree of a commit reachable from A; any object referenced from a tree of a commit of the range MAY be named",
@@ -721,5 +766,6 @@ func main() {
 		}(i)
 	}
 	wg.Wait()
+	sbx.RemoveBase() // Finish exits the process, deferred calls do not run
 	run.Finish()
 }
